@@ -471,6 +471,129 @@ def toolbox_ops(inp):
     return {"checks": res}
 
 
+def _graph_net(pp):
+    net = pp.create_empty_network(fluid="lgas")
+    j = pp.create_junctions(net, 6, 1.0, 293.15)
+    pp.create_ext_grid(net, j[0], 1.0, 293.15)
+    pp.create_ext_grid(net, j[5], 0.9, 293.15)
+    pp.create_pipe_from_parameters(net, j[0], j[1], 0.4, 100.)      # 0
+    pp.create_pipe_from_parameters(net, j[1], j[2], 0.7, 100.)      # 1  (valve attached at j1)
+    pp.create_pipe_from_parameters(net, j[2], j[3], 0.2, 100.)      # 2
+    pp.create_pipe_from_parameters(net, j[1], j[3], 1.5, 100.)      # 3  (long parallel way)
+    pp.create_valve(net, j[1], 1, "pi", 100., opened=True)          # valve 0 on pipe 1
+    pp.create_valve(net, j[3], j[4], "ju", 100., opened=True)       # valve 1
+    pp.create_pump(net, j[4], j[5], "P1")                            # pump 0
+    pp.create_sink(net, j[3], 0.01)
+    pp.create_sink(net, j[4], 0.01)
+    return net, j
+
+
+def graph_vs_solver(inp):
+    import copy
+    import heapq
+    import networkx as nx
+    import pandapipes as pp
+    import pandapipes.topology as top
+    res = {k: {"ok": True, "cases": 0, "witness": None} for k in (
+        "unsupplied-junctions-equal-nan-pattern", "components-equal-solver-islands", "one-edge-per-in-service-element",
+        "distances-equal-shortest-pipe-paths")}
+
+    def note(k, w):
+        res[k]["ok"] = False
+        if res[k]["witness"] is None:
+            res[k]["witness"] = w
+    base, j = _graph_net(pp)
+    flags = [("pipe", 0, "in_service"), ("pipe", 1, "in_service"), ("pipe", 3, "in_service"), ("valve", 0, "opened"),
+             ("valve", 1, "opened"), ("pump", 0, "in_service"), ("ext_grid", 0, "in_service"), ("ext_grid", 1, "in_service"),
+             ("junction", 2, "in_service")]
+    for pat in itertools.product([True, False], repeat=len(flags)):
+        net = copy.deepcopy(base)
+        for (t, i, c), v in zip(flags, pat):
+            net[t].at[i, c] = v
+        # consistent flags: elements at an out-of-service junction are out of service too
+        if not net.junction.at[2, "in_service"]:
+            net.pipe.loc[[1, 2], "in_service"] = False
+        label = {"%s%d.%s" % f: v for f, v in zip(flags, pat) if not v}
+        for multi in (True, False):
+            res["one-edge-per-in-service-element"]["cases"] += 1
+            g = top.create_nxgraph(net, multi=multi)
+            exp = []
+            closed_pipes = set(net.valve.element[(net.valve.et == "pi") & ~net.valve.opened])
+            for idx, r in net.pipe.iterrows():
+                if r.in_service and idx not in closed_pipes:
+                    exp.append((r.from_junction, r.to_junction))
+            for idx, r in net.valve.iterrows():
+                if r.et == "ju" and r.opened:
+                    exp.append((r.junction, r.element))
+            for idx, r in net.pump.iterrows():
+                if r.in_service:
+                    exp.append((r.from_junction, r.to_junction))
+            oos = set(net.junction.index[~net.junction.in_service])
+            exp = sorted(tuple(sorted((int(a), int(b)))) for a, b in exp if a not in oos and b not in oos)
+            got = sorted(tuple(sorted((int(a), int(b)))) for a, b in (g.edges() if not multi else [(a, b) for a, b, k in g.edges(keys=True)]))
+            if not multi:
+                exp = sorted(set(exp))
+            if got != exp or set(int(n) for n in g.nodes()) != set(int(n) for n in net.junction.index) - set(int(x) for x in oos):
+                note("one-edge-per-in-service-element", {"flags_off": label, "multi": multi, "graph": got, "expected": exp})
+        res["unsupplied-junctions-equal-nan-pattern"]["cases"] += 1
+        res["components-equal-solver-islands"]["cases"] += 1
+        uns = set(int(x) for x in top.unsupplied_junctions(net)) | set(int(x) for x in net.junction.index[~net.junction.in_service])
+        try:
+            pp.pipeflow(net, iter=100)
+            nan = set(int(x) for x in net.res_junction.index[net.res_junction.p_bar.isnull()])
+        except Exception as e:  # noqa
+            msg = str(e)
+            if type(e).__name__ == "PipeflowNotConverged" and "connected" not in msg and "slack" not in msg.lower():
+                continue        # a numerically unsolved pattern says nothing about connectivity
+            nan = set(int(x) for x in net.junction.index)
+        if uns != nan:
+            note("unsupplied-junctions-equal-nan-pattern", {"flags_off": label, "unsupplied(+oos)": sorted(uns), "no pressure result": sorted(nan)})
+        g = top.create_nxgraph(net)
+        supplied = [set(int(x) for x in cc) for cc in nx.connected_components(g)
+                    if set(cc) & set(net.ext_grid.junction[net.ext_grid.in_service])]
+        calc = set(int(x) for x in net.junction.index) - nan
+        if set().union(*supplied) if supplied else set() != calc:
+            if (set().union(*supplied) if supplied else set()) != calc:
+                note("components-equal-solver-islands", {"flags_off": label, "graph": [sorted(c) for c in supplied], "solver": sorted(calc)})
+    # distances
+    net = copy.deepcopy(base)
+    for variant in ({}, {("pipe", 1): False}, {("valve", 0): False}):
+        n2 = copy.deepcopy(net)
+        for (t, i), v in variant.items():
+            n2[t].at[i, "in_service" if t == "pipe" else "opened"] = v
+        adj = {int(x): [] for x in n2.junction.index}
+        closed_pipes = set(n2.valve.element[(n2.valve.et == "pi") & ~n2.valve.opened])
+        for idx, r in n2.pipe.iterrows():
+            if r.in_service and idx not in closed_pipes:
+                adj[int(r.from_junction)].append((int(r.to_junction), r.length_km))
+                adj[int(r.to_junction)].append((int(r.from_junction), r.length_km))
+        for idx, r in n2.valve.iterrows():
+            if r.et == "ju" and r.opened:
+                adj[int(r.junction)].append((int(r.element), 0.))
+                adj[int(r.element)].append((int(r.junction), 0.))
+        for idx, r in n2.pump.iterrows():
+            if r.in_service:
+                adj[int(r.from_junction)].append((int(r.to_junction), 0.))
+                adj[int(r.to_junction)].append((int(r.from_junction), 0.))
+        for src in n2.junction.index:
+            res["distances-equal-shortest-pipe-paths"]["cases"] += 1
+            dist = {int(src): 0.}
+            pq = [(0., int(src))]
+            while pq:
+                d, u = heapq.heappop(pq)
+                if d > dist.get(u, 1e99):
+                    continue
+                for v, w in adj[u]:
+                    if d + w < dist.get(v, 1e99):
+                        dist[v] = d + w
+                        heapq.heappush(pq, (d + w, v))
+            got = top.calc_distance_to_junction(n2, src)
+            gd = {int(k): float(v) for k, v in got.items()}
+            if set(gd) != set(dist) or any(abs(gd[k] - dist[k]) > 1e-12 for k in dist):
+                note("distances-equal-shortest-pipe-paths", {"variant": str(variant), "source": int(src), "graph": gd, "expected": dist})
+    return {"checks": res}
+
+
 def main():
     inp = json.load(sys.stdin)
     fn = globals()[inp["what"]]
